@@ -41,4 +41,15 @@ detect)
   echo "$out" | grep -E "VIOLATION|KNOWN-FINDING|CHECK-BROKEN" | cut -c1-400
   echo "detect $id by $prop ($tier): rc=$rc"
   ;;
+detectc)
+  # like detect, but in a scratch clone of /repo (leaves /repo, .work and evidence/ alone)
+  id=$1; prop=$2; tier=${3:-quick}
+  R=/tmp/repo_det_$$
+  git clone -q /repo $R
+  ( cd $R && (git apply /verif/seeded/$id/patch.diff 2>/dev/null || patch -p1 -s -F3 < /verif/seeded/$id/patch.diff) ) || { echo "APPLY FAILED"; rm -rf $R; exit 2; }
+  out=$(cd /verif && VERIF_REPO=$R VERIF_WORK=/tmp/verif_det_work_$$ VERIF_EVID=/tmp/verif_det_evid_$$ timeout 3000 bin/check $prop --tier $tier 2>&1); rc=$?
+  rm -rf $R /tmp/verif_det_work_$$ /tmp/verif_det_evid_$$
+  echo "$out" | grep -E "VIOLATION|KNOWN-FINDING|CHECK-BROKEN" | cut -c1-400
+  echo "detect $id by $prop ($tier): rc=$rc"
+  ;;
 esac
